@@ -171,7 +171,7 @@ def m_step(model, data, gamma, q, saliency=None, wca=(-1,), hermitize=True, norm
             for k in range(K):
                 mean[idx + (k,)], kap[idx + (k,)], rbar[idx + (k,)] = \
                     M.m_vmf(y[idx], gamma[idx + (k,)] * s[idx], kmin, kmax)
-        ref['vmf'] = dict(mean=mean, kappa=kap, rbar=rbar)
+        ref['vmf'] = dict(mean=mean, kappa=kap, rbar=rbar, kmin=kmin, kmax=kmax)
     if model in M.INTEGRATION:
         F, T, E = emb.shape
         flat = emb.reshape(F * T, E)
@@ -191,7 +191,7 @@ def m_step(model, data, gamma, q, saliency=None, wca=(-1,), hermitize=True, norm
             for k in range(K):
                 c = (gamma[:, k, :] * s).reshape(F * T)
                 mean[k], kap[k], rbar[k] = M.m_vmf(flat, c, kmin, kmax)
-            ref['vmf'] = dict(mean=mean, kappa=kap, rbar=rbar)
+            ref['vmf'] = dict(mean=mean, kappa=kap, rbar=rbar, kmin=kmin, kmax=kmax)
     return ref
 
 
@@ -251,16 +251,26 @@ def compare(model, impl_ref, ref, rtol, D, check_bingham=None, what='model', wei
         bad = tol.mismatch(impl_ref['vmf']['mean'], v['mean'], rtol * 10, what=f'{what}: vMF mean')
         if bad:
             return bad
-        # kappa = f(rbar) is ill-conditioned near rbar = 1: scale the tolerance
+        # kappa = f(rbar) is ill-conditioned near rbar = 1: the implementation's value must lie
+        # between the clipped Banerjee values of rbar*(1 -/+ 1e-12) (rbar >= 1 means kappa_max)
         ki, kr = np.asarray(impl_ref['vmf']['kappa'], float), v['kappa']
         if ki.shape != kr.shape:
             return f'{what}: vMF concentration shape {ki.shape} != {kr.shape}'
-        with np.errstate(all='ignore'):
-            cond = 1 + 2.0 / np.maximum(1 - v['rbar'] ** 2, 1e-16)
-        lim = rtol * cond * (1 + np.abs(kr)) + 1e-12
-        if (np.abs(ki - kr) > lim).any():
-            i = np.unravel_index(np.argmax(np.abs(ki - kr) - lim), ki.shape) if ki.ndim else ()
-            return f'{what}: vMF concentration {ki[i]!r} != reference {kr[i]!r} (rbar {v["rbar"][i]!r})'
+        Dv = impl_ref['vmf']['mean'].shape[-1]
+        kmin_, kmax_ = float(v.get('kmin', 1e-10)), float(v.get('kmax', 500.0))
+
+        def banerjee(r):
+            if r >= 1 - 1e-15:
+                return kmax_
+            return min(max((r * Dv - r ** 3) / (1 - r ** 2), kmin_), kmax_)
+        for idx in np.ndindex(*ki.shape):
+            r = float(v['rbar'][idx])
+            lo, hi = banerjee(r * (1 - 1e-12)), banerjee(min(r * (1 + 1e-12), 1.0))
+            lo, hi = min(lo, hi), max(lo, hi)
+            k = float(ki[idx])
+            if not (lo - rtol * (1 + abs(lo)) <= k <= hi + rtol * (1 + abs(hi))):
+                return (f'{what}: vMF concentration {k!r} outside [{lo!r}, {hi!r}] expected for '
+                        f'rbar = {r!r} (reference {float(kr[idx])!r})')
     if 'bingham_scatter' in ref:
         Rm = ref['bingham_scatter']
         U, lam = impl_ref['bingham']['U'], impl_ref['bingham']['lam']
